@@ -642,3 +642,159 @@ Section WfStmts.
     | SFor v _ val body _ => WfIdent X v /\ WfExpr X val /\ all body
     end.
 End WfStmts.
+
+(* ------------------------------------------------------------------ files *)
+(* the items of a file in source order; a stanza carries the text of its query, which extends up to
+   the `{` of its block (so the gap in front of the block belongs to the query text) *)
+Inductive item :=
+| IGlobal (g : global)
+| IInherit (name : ident)
+| IShorthand (h : shorthand)
+| IStanza (q : str) (z : stanza).
+
+(* the scan of skip_query over a query text: None if it meets a `{` outside strings and comments *)
+Fixpoint qscan (in_string in_escape in_comment : bool) (q : list N) : option (bool * bool * bool) :=
+  match q with
+  | [] => Some (in_string, in_escape, in_comment)
+  | ch :: q' =>
+      if in_escape then qscan in_string false in_comment q'
+      else if in_string then
+        (if ch =? 92 then qscan true true in_comment q'
+         else if (ch =? 34) || (ch =? 10) then qscan false false in_comment q'
+         else qscan true false in_comment q')
+      else if in_comment then qscan false false (negb (ch =? 10)) q'
+      else if ch =? 34 then qscan true false false q'
+      else if ch =? 123 then None
+      else if ch =? 59 then qscan false false true q'
+      else qscan false false false q'
+  end.
+
+(* the character written after a global's name when it has no quantifier: any one whitespace character *)
+Definition quant_text (L : layout) (q : quant) : list N :=
+  match q with
+  | QOpt => [63] | QStar => [42] | QPlus => [43]
+  | _ => [match (l_zeros L [] mod 4)%nat with 0%nat => 32 | 1%nat => 9 | 2%nat => 10 | _ => 13 end]
+  end.
+
+Section FileRender.
+  Variable tbl : list str.
+
+  Definition item_text (L : layout) (it : item) : list N :=
+    match it with
+    | IGlobal g =>
+        t_global ++ Gs L 0 true true ++ gl_name g ++ quant_text L (gl_quant g)
+        ++ match gl_default g with
+           | None => []
+           | Some d => G L 1 ++ [61] ++ G L 2 ++ render_string (l_esc L []) d
+           end
+    | IInherit n => t_inherit ++ G L 0 ++ [46] ++ n
+    | IShorthand h =>
+        t_attribute ++ Gs L 0 true true ++ sh_name h ++ G L 1 ++ [61] ++ G L 2 ++ sh_var h ++ G L 3 ++ t_arrow2
+        ++ G L 4 ++ attrs_text (sub L 5) 0 (sh_attrs h)
+    | IStanza q z => q ++ block_text tbl (sub L 1) (st_stmts z)
+    end.
+  Definition item_ends_word (L : layout) (it : item) : bool :=
+    match it with
+    | IGlobal _ | IStanza _ _ => false
+    | IInherit _ => true
+    | IShorthand h => attrs_ends_word (sub L 5) 0 (sh_attrs h)
+    end.
+  Definition item_starts_word (X : ext) (it : item) : bool :=
+    match it with
+    | IStanza q _ => match q with c :: _ => is_ident X c | [] => false end
+    | _ => true
+    end.
+  Definition item_pats (it : item) : list str :=
+    match it with IStanza _ z => stmts_pats tbl (st_stmts z) | _ => [] end.
+  Definition item_query_source (it : item) : str :=
+    match it with IStanza q _ => q ++ full_match_suffix ++ [10] | _ => [] end.
+
+  (* the located item written at position p, when k scan arms were parsed before *)
+  Definition item_loc (L : layout) (p : loc) (k : nat) (it : item) : item :=
+    match it with
+    | IGlobal g =>
+        IGlobal {| gl_name := gl_name g; gl_quant := gl_quant g; gl_default := gl_default g;
+                   gl_loc := pos_after p (t_global ++ Gs L 0 true true) |}
+    | IInherit n => IInherit n
+    | IShorthand h =>
+        let p1 := pos_after p (t_attribute ++ Gs L 0 true true) in
+        let pv := pos_after p1 (sh_name h ++ G L 1 ++ [61] ++ G L 2) in
+        IShorthand {| sh_name := sh_name h; sh_var := sh_var h; sh_vloc := pv;
+                      sh_attrs := attrs_loc (sub L 5) 0 (pos_after pv (sh_var h ++ G L 3 ++ t_arrow2 ++ G L 4)) (sh_attrs h);
+                      sh_loc := p1 |}
+    | IStanza q z =>
+        IStanza q {| st_stmts := block_loc tbl (sub L 1) (pos_after p q) k (st_stmts z);
+                     st_full_stanza_idx := st_full_stanza_idx z; st_full_file_idx := u32_max; st_start := p |}
+    end.
+
+  Section Items.
+    Variable X : ext.
+    (* item i = component 2i, followed by gap 2i+1 *)
+    Fixpoint items_text (L : layout) (i : nat) (l : list item) : list N :=
+      match l with
+      | [] => []
+      | it :: l' =>
+          item_text (sub L (2 * i)) it
+          ++ Gs L (2 * i + 1) (item_ends_word (sub L (2 * i)) it) (match l' with it2 :: _ => item_starts_word X it2 | [] => false end)
+          ++ items_text L (S i) l'
+      end.
+    Fixpoint items_loc (L : layout) (i : nat) (p : loc) (k : nat) (l : list item) : list item :=
+      match l with
+      | [] => []
+      | it :: l' =>
+          item_loc (sub L (2 * i)) p k it ::
+          items_loc L (S i)
+            (pos_after p (item_text (sub L (2 * i)) it
+               ++ Gs L (2 * i + 1) (item_ends_word (sub L (2 * i)) it) (match l' with it2 :: _ => item_starts_word X it2 | [] => false end)))
+            (k + length (item_pats it))%nat l'
+      end.
+    Definition file_text (L : layout) (l : list item) : list N := G L 0 ++ items_text (sub L 1) 0 l.
+    Definition file_items_loc (L : layout) (l : list item) : list item :=
+      items_loc (sub L 1) 0 (pos_after (0, 0) (G L 0)) 0 l.
+  End Items.
+End FileRender.
+
+(* the File built from located items, as parse_into_file fills it *)
+Fixpoint acc_of_items (l : list item) (a : facc) : facc :=
+  match l with
+  | [] => a
+  | IGlobal g :: l' => acc_of_items l' {| a_globals := a_globals a ++ [g]; a_inherited := a_inherited a; a_shorthands := a_shorthands a; a_stanzas := a_stanzas a; a_query_source := a_query_source a |}
+  | IInherit n :: l' => acc_of_items l' {| a_globals := a_globals a; a_inherited := a_inherited a ++ [n]; a_shorthands := a_shorthands a; a_stanzas := a_stanzas a; a_query_source := a_query_source a |}
+  | IShorthand h :: l' => acc_of_items l' {| a_globals := a_globals a; a_inherited := a_inherited a; a_shorthands := a_shorthands a ++ [h]; a_stanzas := a_stanzas a; a_query_source := a_query_source a |}
+  | IStanza q z :: l' => acc_of_items l' {| a_globals := a_globals a; a_inherited := a_inherited a; a_shorthands := a_shorthands a; a_stanzas := a_stanzas a ++ [z]; a_query_source := a_query_source a ++ q ++ full_match_suffix ++ [10] |}
+  end.
+Definition empty_acc : facc :=
+  {| a_globals := []; a_inherited := []; a_shorthands := []; a_stanzas := []; a_query_source := [] |}.
+Definition file_of_items (l : list item) : file := file_of_acc (acc_of_items l empty_acc).
+
+Section WfItems.
+  Variable X : ext.
+  Variable tbl : list str.
+  Definition WfQuery (q : str) : Prop :=
+    qscan false false false q = Some (false, false, false) /\
+    starts_with t_attribute (q ++ [123]) = false /\ starts_with t_global (q ++ [123]) = false /\
+    starts_with t_inherit (q ++ [123]) = false /\ no_gap_start X (q ++ [123]) /\
+    match q ++ [123] with c :: _ => c <> 61 /\ c <> 44 /\ c <> 46 | [] => True end.
+  Definition WfItem (it : item) : Prop :=
+    match it with
+    | IGlobal g => WfIdent X (gl_name g) /\ gl_quant g <> QZero
+    | IInherit n => WfIdent X n
+    | IShorthand h => WfIdent X (sh_name h) /\ WfIdent X (sh_var h) /\ sh_attrs h <> [] /\ Forall (WfAttr X) (sh_attrs h)
+    | IStanza q z =>
+        WfQuery q /\ (fix all (l : list stmt) : Prop := match l with [] => True | s :: l' => WfStmt X tbl s /\ all l' end) (st_stmts z)
+    end.
+  (* tree-sitter accepts every stanza's query (offsets in bytes from the start of the file) as one
+     pattern and reports the index of the appended full-match capture *)
+  Fixpoint queries_ok (L : layout) (i : nat) (off : N) (l : list item) : Prop :=
+    match l with
+    | [] => True
+    | it :: l' =>
+        match it with
+        | IStanza q z => exists n, x_query X off (off + bytes q) = Some (QOk n (Some (st_full_stanza_idx z))) /\ (1 <? n) = false
+        | _ => True
+        end /\
+        queries_ok L (S i)
+          (off + bytes (item_text tbl (sub L (2 * i)) it
+                        ++ Gs L (2 * i + 1) (item_ends_word (sub L (2 * i)) it) (match l' with it2 :: _ => item_starts_word X it2 | [] => false end))) l'
+    end.
+End WfItems.
